@@ -128,6 +128,8 @@ inductive Op
   | setCounts (o : Ref) (d : List (Nat × Rat))
   | setOp (op : SetOp) (a b : Ref)
   | addSub (sign : Int) (a b : Ref)
+  | scalar (o : Nat) (a : Ref) (x : Rat)                              -- `a * x` (0), `a / x` (1), `a // x` (2)
+  | batch (mean : Bool) (rs : List Ref) (w : Option (List Rat))       -- `fprint.add(fps, weights)` / `fprint.mean(fps, weights)`
   deriving Repr, Inhabited
 
 inductive Ans
@@ -156,6 +158,17 @@ def setObj (h : Heap) (r : Ref) (o : FObj) : Heap := { h with objs := h.objs.set
 def foldedCounts (k : Kind) (cm : CountsMethod) (parentCnt : List (Nat × Rat)) (m : List (Nat × List Nat)) :
     List (Nat × Rat) :=
   m.map (fun p => (p.1, coerce k (combine cm (p.2.map (lookupQ parentCnt)))))
+
+/-- the values of a list of objects (`none` when one of them is not a live, well-formed object) -/
+def absAll (h : Heap) : List Ref → Option (List Fp)
+  | [] => some []
+  | r :: rs =>
+    match getObj h r with
+    | none => none
+    | some o =>
+      match absFp h o, absAll h rs with
+      | some v, some vs => some (v :: vs)
+      | _, _ => none
 
 def step (h : Heap) : Op → Heap × Ans
   | .new k ix c bits level name props =>
@@ -263,6 +276,24 @@ def step (h : Heap) : Op → Heap × Ans
            | .ok v => let (h', r) := allocFp h v [] none none; (h', .ref r))
         | _, _ => (h, .bad))
      | _, _ => (h, .bad))
+  | .scalar o a x =>
+    (match getObj h a with
+     | none => (h, .bad)
+     | some oa =>
+       match absFp h oa, getProps h oa.props with
+       | some va, some p =>
+         (match (if o = 0 then va.mul x else if o = 1 then va.div x else va.floordiv x) with
+          | .error e => (h, .err e)
+          | .ok v => let (h', r) := allocFp h v (dictUpdate [] p) none none; (h', .ref r))
+       | _, _ => (h, .bad))
+  | .batch mean rs w =>
+    (match absAll h rs with
+     | none => (h, .bad)
+     | some vs =>
+       match (if mean then meanBatch vs w else addBatch vs w) with
+       | .error e => (h, .err e)
+       | .ok none => (h, .unit)
+       | .ok (some v) => let (h', r) := allocFp h v [] none none; (h', .ref r))
 
 def run (h : Heap) : List Op → Heap × List Ans
   | [] => (h, [])
